@@ -10,6 +10,10 @@ def _val_text(e):
     e = strip_casts(e)
     if isinstance(e, dict) and e.get("k") == "un" and e["op"] in ("pre++", "pre--"):
         return lv(e["e"])
+    if isinstance(e, dict) and e.get("k") == "bin" and e["op"] == "=":
+        return lv(e["l"])          # the value of `(v = e)` is v's new value
+    if isinstance(e, dict) and e.get("k") == "bin" and e["op"] == ",":
+        return _val_text(e["r"])
     return lv(e)
 
 
@@ -49,7 +53,7 @@ def cond_atoms(c, truth):
                     out.append(("false" if op == "==" else "true", lv(v), v))
                     break
         return out
-    out.append(("true" if truth else "false", lv(c), c))
+    out.append(("true" if truth else "false", _val_text(c), c))
     # ... and a bare x / !x is also x != 0 / x == 0
     zero = {"k": "int", "v": 0, "t": "int"}
     out.append(("!=" if truth else "==", _val_text(c), "0", c, zero))
